@@ -157,6 +157,11 @@ def level_for(prop: str, ded: dict | None, nat: dict) -> str:
 
 
 def main(argv=None) -> int:
+    for stream in (sys.stdout, sys.stderr):  # witnesses may hold lone surrogates (file names that are not valid UTF-8)
+        try:
+            stream.reconfigure(errors="backslashreplace")
+        except Exception:  # noqa: BLE001
+            pass
     ap = argparse.ArgumentParser()
     ap.add_argument("prop", nargs="?")
     ap.add_argument("--tier", default=os.environ.get("VERIF_TIER") or "quick")
